@@ -6,6 +6,8 @@
 (*      real log violates (this is the verdict);                           *)
 (*   M: for exact (tick-valued) runs the mechanism model is run on the     *)
 (*      same inputs and must produce the same log (drift detection).       *)
+(* A trace may be the second call of solve() on a solver that max_steps    *)
+(* stopped (t0, c0 # 0): only P applies to it.                             *)
 (* Results are accumulated in TLC registers, one per trace, and printed by *)
 (* the POSTCONDITION.                                                      *)
 (***************************************************************************)
@@ -15,7 +17,7 @@ Traces == ndJsonDeserialize(IOEnv.TRACE_FILE)
 VARIABLE tid
 T == Traces[tid]
 TIn(x) == [tf |-> x.tf, dt0 |-> x.dt0, pfreq |-> x.pfreq, outs |-> ToSet(x.outs),
-           maxsteps |-> x.maxsteps]
+           maxsteps |-> x.maxsteps, t0 |-> x.t0, c0 |-> x.c0]
 
 Verdict(x) ==
     LET f == Failed(x.log, TIn(x), x.e)
